@@ -1569,6 +1569,10 @@ Vdeletetagref(int32 vkey, /* IN: vgroup key */
     if (vg == NULL)
         HGOTO_ERROR(DFE_BADPTR, FAIL);
 
+    /* members are removed through a write attachment, as they are added */
+    if (vg->access != 'w')
+        HGOTO_ERROR(DFE_BADACC, FAIL);
+
     /* set comparison tag/ref pair */
     ttag = (uint16)tag;
     rref = (uint16)ref;
